@@ -211,6 +211,17 @@ def run(repo, tier):
     src = unparse(lr)
     rep.check('int(reg, base=0)' in src or 'int(reg, 0)' in src, 'R13.1.registers', 'numeric register spellings in any base go through int(., 0)',
               lambda: Finding('R13.1.registers', 'lookup_register', lr, 'hex / binary register numbers are no longer normalised before the table lookup', line=lr.lineno), nontrivial=False)
+    # R13.6 decisions must not depend on how a register is spelled: predicates compare register *numbers*
+    from ..comprel import CompRel
+    rel = CompRel(facts)
+    for fac, field in rel.raw_compares:
+        node = rel.factories[fac][2]
+        rep.fail(Finding('R13.6.normalised', 'transform_compressible.' + fac, node,
+                         'the compression predicate {} compares the register operand `{}` as written instead of its number (lookup_register): `addi a0, x10, 1` and `addi a0, a0, 1` '
+                         'name the same registers but are compressed differently, so bytes and labels depend on the spelling'.format(fac, field), line=node.lineno),
+                 instance=fac + ' ' + str(field))
+    if not rel.raw_compares:
+        rep.ok('R13.6.normalised', 'all {} compression predicates compare register numbers, not spellings'.format(len(rel.factories)))
     rep.floor('register spellings checked', 129)
     rep.floor('parse paths analysed', 30)
     return rep
